@@ -70,6 +70,8 @@ def classify(ctx, sc, tr):
             kinds.add("sample_in_service")
     for k in kinds:
         ctx.count(k)
+    if kinds:
+        ctx.count_case()
     return kinds
 
 
